@@ -59,6 +59,10 @@ static Outcome runCase(const KV& c)
     if (nu1 + nu2 == 0)
         o.cls("no_smoothing");
     o.cls(mode == 0 ? "differential" : "fixed_point");
+    if (nl >= 2 && L[1].grid().numberOfNodes() > 10000)
+        o.cls(cfg.threads >= 2 ? "level1_above_parallel_threshold_multithreaded" : "level1_above_parallel_threshold");
+    if (nl >= 3 && L[2].grid().numberOfNodes() > 10000)
+        o.cls("level2_above_parallel_threshold");
 
     Vector<double> u = makeVector(g, (int)c.getI("u_kind"), c.getU("u_seed"));
     Vector<double> zero(n);
@@ -210,6 +214,18 @@ static KV genCase()
     if (s.strategy == 1) {
         s.cache_coef = rbool();
         s.cache_geom = rbool();
+    }
+    // The cycle code switches to parallel kernels on levels with more than 10 000 nodes (`omp parallel if (n > 10'000)`
+    // in the transfers and vector updates): a small share of the cases has level 1 (and, in the thorough tier, level 2)
+    // above that threshold and runs with several threads, with enough levels that the coarsest solve stays small.
+    const bool thorough = std::getenv("VERIF_TIER") && std::string(std::getenv("VERIF_TIER")) == "thorough";
+    if (rweighted({thorough ? 30 : 40, 1}) == 1) {
+        s.nr_exp     = (thorough && rint(0, 3) == 0) ? 9 : 8;
+        s.div        = 0;
+        s.ntheta_exp = -1;
+        s.max_levels = rpick({-1, 5, 6});
+        s.threads    = rpick({2, 3, 4});
+        s.R0         = s.Rmax * rpick({1e-3, 1e-2, 0.1}); // keeps the fixed-point bound meaningful on 257 radial nodes
     }
     s.put(c);
     c.putI("cycle", rint(0, 2));
